@@ -2,7 +2,8 @@
    Only statements; all proof work is in Proofs/C05_Geodetic.v and Proofs/C05_Flow.v. *)
 From Coq Require Import Reals ZArith QArith List Bool String.
 From Verif Require Import Lib.Dyadic Lib.Atan2 Lib.Ival Lib.C05_Prog.
-From Verif Require Import Model.C05_Geodetic Model.C05_Flow Proofs.C05_Geodetic Proofs.C05_Flow Proofs.C05_FlowToday.
+From Verif Require Import Model.C05_Geodetic Model.C05_Flow Proofs.C05_Geodetic Proofs.C05_Flow Proofs.C05_FlowToday
+  Proofs.C05_AccDefs Proofs.C05_Accuracy.
 From Verif Require Gen.C05_EllipsoidFlow.
 From Verif Require Gen.C05_Ellipsoids.
 Import ListNotations.
@@ -100,6 +101,36 @@ Theorem trs2llh_exact_on_equator : forall a f x y, 0 < a -> f < 1 -> ~ is_pole a
   /\ llh2trs_R a f 0 (atan2 y x) (sqrt (x² + y²) - a) = (x, y, 0).
 Proof. exact trs2llh_exact_on_equator_l. Qed.
 Print Assumptions trs2llh_exact_on_equator.
+
+(* ---------------------------------------------------------------- accuracy of the one step on curves (partial) *)
+(* roundtrip_ok a f phi lam h: trs2llh (llh2trs (phi, lam, h)) gives back phi within 1.5e-13 rad (< 1e-6 m of arc) and h within
+   1e-6 m.  GRS80 (grs80_a, grs80_f are the published constants of ellipsoid 2).  Proved on curves only - the bound on the
+   whole band latitude x height is NOT a theorem (univariate Taylor models; see Proofs/C05_Accuracy.v) *)
+Theorem grs80_constants :
+  ell_params 2 = Some (6378137 # 1, Qinv (298257222101 # 1000000000))%Q
+  /\ Q2R (6378137 # 1) = grs80_a /\ Q2R (Qinv (298257222101 # 1000000000)) = grs80_f.
+Proof. exact grs80_is_published. Qed.
+Print Assumptions grs80_constants.
+
+(* all latitudes up to 85.9 deg north and south, all longitudes, on the surfaces h = +100 km and h = -100 km *)
+Theorem halley_accuracy_on_height_surfaces_partial : forall phi lam h,
+  (h = 100000 \/ h = -100000) -> - (3 / 2) <= phi <= 3 / 2 -> roundtrip_ok grs80_a grs80_f phi lam h.
+Proof. exact accuracy_on_height_surfaces_l. Qed.
+Print Assumptions halley_accuracy_on_height_surfaces_partial.
+
+(* all heights -100 km .. 100 km, all longitudes, on the normals at |phi| = 1/4, 3/4, 5/4, 3/2 rad *)
+Theorem halley_accuracy_on_normals_partial : forall phi lam h,
+  (Rabs phi = 1 / 4 \/ Rabs phi = 3 / 4 \/ Rabs phi = 5 / 4 \/ Rabs phi = 3 / 2) -> -100000 <= h <= 100000 ->
+  roundtrip_ok grs80_a grs80_f phi lam h.
+Proof. exact accuracy_on_normals_l. Qed.
+Print Assumptions halley_accuracy_on_normals_partial.
+
+(* latitude and height depend on x, y only through the distance from the axis *)
+Theorem trs2llh_axially_symmetric : forall a f x y z,
+  lat_of (trs2llh_R a f x y z) = lat_of (trs2llh_R a f (sqrt (x² + y²)) 0 z)
+  /\ h_of (trs2llh_R a f x y z) = h_of (trs2llh_R a f (sqrt (x² + y²)) 0 z).
+Proof. exact trs2llh_axial. Qed.
+Print Assumptions trs2llh_axially_symmetric.
 
 (* verdict 0 of the correspondence, direction trs -> llh: the implementation's doubles (lat, lon, h) are within
    1e-8 m + 4 ulp (arc length at the distance r of the point) of trs2llh_R of the exact inputs on the published ellipsoid i,
